@@ -371,10 +371,13 @@ theorem unknown_layout_spec (cfg : DocCfg) (r : Rec) (h : entityWF cfg.alive r =
           else paperFlag (collectGroups (fun t => t.code == 100) isEndOfClass rest).1) :=
   unknownPsp_spec cfg r h hty
 
-/-- OBJECTS section: every record is written in file order (unknown: `canon r`), behind them the objects ezdxf creates itself -/
+/-- OBJECTS section: every record is written in file order (unknown: `canon r`), behind them the objects ezdxf creates itself;
+    since fix 42c45156c the objects owned by a graphical entity without layout are skipped (`cfg.skipObject`; never the case
+    for an object whose owner chain ends at a table entry, a dictionary or an entity that has an owner) -/
 theorem objects_passthrough (cfg : DocCfg) (recs : List Rec) (appended : List Tag)
     (hwf : ∀ r ∈ recs, isUnknown r = true → entityWF cfg.alive r = true) :
-    objectsPass cfg recs appended = .ok (recs.flatMap (fun r => written cfg (r, [])) ++ appended) :=
+    objectsPass cfg recs appended
+      = .ok ((recs.filter (fun r => !cfg.skipObject r)).flatMap (fun r => written cfg (r, [])) ++ appended) :=
   objectsPass_ok cfg recs appended hwf
 
 /-- BLOCKS section: a section made of named BLOCK … ENDBLK definitions (content without BLOCK / ENDBLK; the linker accepts it)
@@ -396,7 +399,7 @@ theorem blocks_passthrough (cfg : DocCfg) (bc : BlockCfg) (order : List V) (orph
 theorem file_passthrough (cfg : DocCfg) (bc : BlockCfg) (order : List V) (orphan : V → List Tag) (ver : Nat) (verText : V)
     (extra : List ClassE) (other : SectionPart → List Tag) (appended : List Tag) (secs : List Sec)
     (hwf : ∀ s ∈ secs, secWF s = true) (hn : (secs.map (fun s => s.name)).Nodup)
-    (groups : List (V × V)) (hh : (headerOf secs).bind headerGroupsOf = some groups)
+    (groups : List (V × Tag)) (hh : (headerOf secs).bind headerGroupsOf = some groups)
     (es : List StdClass) (hc : bodyOf secs sCLASSES = es.map (fun c => c.record (decide (1018 ≤ ver))))
     (hk : (es.map (fun c => (c.name, c.cpp))).Nodup)
     (hA : ∀ r ∈ bodyOf secs sACDSDATA, acdsRecWF r = true)
@@ -407,14 +410,15 @@ theorem file_passthrough (cfg : DocCfg) (bc : BlockCfg) (order : List V) (orphan
     (hE : ∀ r ∈ bodyOf secs sENTITIES, isUnknown r = true → entityWF cfg.alive r = true)
     (hO : ∀ r ∈ bodyOf secs sOBJECTS, isUnknown r = true → entityWF cfg.alive r = true) :
     loadSaveFile cfg bc order orphan ver verText extra other appended (fileOf secs) = .ok
-      ((secHead sHEADER ++ headerTagsOf ver (headerPass ver verText groups) ++ [endsecTag])
+      ((secHead sHEADER ++ headerTagsOf ver (headerPass ver verText cfg.castHeader groups) ++ [endsecTag])
         ++ (secHead sCLASSES ++ (es.flatMap (fun c => c.record (decide (1018 ≤ ver)))
               ++ classesTail (decide (1018 ≤ ver)) es extra) ++ [endsecTag])
         ++ other .tables
         ++ (secHead sBLOCKS ++ order.flatMap (blockWritten cfg bc orphan bs) ++ [endsecTag])
         ++ (secHead sENTITIES ++ ((gs.filter (fun g => !pspOf cfg g)).flatMap (written cfg)
               ++ (gs.filter (fun g => pspOf cfg g)).flatMap (written cfg)) ++ [endsecTag])
-        ++ (secHead sOBJECTS ++ ((bodyOf secs sOBJECTS).flatMap (fun r => written cfg (r, [])) ++ appended) ++ [endsecTag])
+        ++ (secHead sOBJECTS ++ (((bodyOf secs sOBJECTS).filter (fun r => !cfg.skipObject r)).flatMap
+              (fun r => written cfg (r, [])) ++ appended) ++ [endsecTag])
         ++ acdsWritten secs ++ (secs.filter unmanaged).flatMap Sec.tags ++ [eofTag]) :=
   loadSaveFile_ok cfg bc order orphan ver verText extra other appended secs hwf hn groups hh es hc hk hA bs hlb hb hB gs hl hE hO
 
@@ -452,31 +456,74 @@ theorem class_entry_counterexamples :
       = some [T 0 "CLASS", T 1 "A", T 2 "B", T 3 "C", T 90 "1", T 280 "0", T 281 "1"] := by
   decide +kernel
 
+/-- a class ezdxf registers at save time (`add_required_classes` -> `add_class` -> `register`) NEVER replaces or changes the entry
+    of the file with the same (name, C++ class name): a MATERIAL entry with a foreign application name and other flags is
+    written as it is, ezdxf's own MATERIAL definition is not written (instance of `classes_section_passthrough` with the
+    regenerated `CLASS_DEFINITIONS` / `REQUIRED_CLASSES`; replayed on the real code, E1) -/
+theorem required_class_does_not_replace :
+    let mine : StdClass := ⟨Ex.S "MATERIAL", Ex.S "AcDbMaterial", Ex.S "AcmeApp|1.0", Ex.S "7", Ex.S "12", Ex.S "1", Ex.S "1"⟩
+    (classesPass true [mine.record true] (requiredExtra true)).map (fun ts => (ts.take 8, ts.filter (fun t => t == ⟨1, Ex.S "MATERIAL"⟩)))
+      = some (mine.record true, [⟨1, Ex.S "MATERIAL"⟩])
+    ∧ (requiredExtra true).any (fun c => c.name == some (Ex.S "MATERIAL") && c.cpp == some (Ex.S "AcDbMaterial")) = true := by
+  decide +kernel
+
+/-- the type cast of a loaded entity (`DXFEntity.shallow_copy`, used by `Polyline.cast` for polyface meshes and polymeshes) shares
+    every container of foreign content with the source entity: extension dictionary, reactors, application groups, XDATA
+    (`Gen.shallowCopyFields`, regenerated from the statements of the function), and POLYLINE is the only type with a cast -/
+theorem cast_shares_foreign_containers :
+    ([Ex.S "extension_dict", Ex.S "reactors", Ex.S "appdata", Ex.S "xdata"].all fun f =>
+        match f with | .str n => shallowCopyFields.contains n | .ref _ => false) = true
+    ∧ castTypes = [[80, 79, 76, 89, 76, 73, 78, 69]] := by
+  decide +kernel
+
 /-! ## session 3: HEADER section (load_tags, header_vars_by_priority, export_dxf with the version gate) -/
 
-/-- Custom properties over the complete header model, with NO assumption about $LASTSAVEDBY: load -> save for target version
-    `ver` writes exactly the loaded custom property pairs (once, in order) iff `ver` >= R2004, and none for older versions
-    (permitted version loss).  Uses `Gen.customFallback` and the version window of $LASTSAVEDBY in `Gen.headerVarMap`. -/
-theorem header_custom_props (ver : Nat) (verText : V) (groups : List (V × V)) :
-    (headerPass ver verText groups).filter (fun g => isCustomName g.1)
-      = if 1018 ≤ ver then customGroups (customLoad groups) else [] :=
-  (headerExport_parts ver verText (headerVars groups []) (customLoad groups) (headerVars_keys groups [] List.nodup_nil)).1
+/-- the header groups as `headerGroupsOf` delivers them, with the value tags reduced to their values -/
+def groupVals (groups : List (V × Tag)) : List (V × V) := groups.map (fun g => (g.1, g.2.val))
+
+/-- custom property pairs as header groups with their value tags (group code 1) -/
+def customGroupsT (ps : List (V × V)) : List (V × Tag) :=
+  ps.flatMap (fun p => [(.str sCustomTag, ⟨1, p.1⟩), (.str sCustomProp, ⟨1, p.2⟩)])
+
+private theorem groupVals_custom (ps : List (V × V)) : groupVals (customGroupsT ps) = customGroups ps := by
+  induction ps with
+  | nil => rfl
+  | cons p r ih =>
+    simp only [groupVals, customGroupsT, customGroups, List.flatMap_cons, List.map_append, List.map_cons, List.map_nil] at ih ⊢
+    rw [ih]
+
+/-- Custom properties over the complete header model, with NO assumption about $LASTSAVEDBY and for ANY value conversion
+    `cast` (fix 16b0d709b): load -> save for target version `ver` writes exactly the loaded custom property pairs (once, in
+    order) iff `ver` >= R2004, and none for older versions (permitted version loss).  Uses `Gen.customFallback` and the
+    version window of $LASTSAVEDBY in `Gen.headerVarMap`. -/
+theorem header_custom_props (ver : Nat) (verText : V) (cast : Nat → Tag → Option V) (groups : List (V × Tag)) :
+    (headerPass ver verText cast groups).filter (fun g => isCustomName g.1)
+      = if 1018 ≤ ver then customGroups (customLoad (groupVals groups)) else [] :=
+  (headerExport_parts ver verText _ (customLoad (groupVals groups))
+    (castVars_keys ver cast _ (headerVars_keys groups [] List.nodup_nil))).1
 
 /-- … so a header whose custom properties are well-formed pairs keeps them for R2004+ wherever they stand -/
-theorem header_custom_props_roundtrip (ver : Nat) (hv : 1018 ≤ ver) (verText : V) (pre post ps : List (V × V))
+theorem header_custom_props_roundtrip (ver : Nat) (hv : 1018 ≤ ver) (verText : V) (cast : Nat → Tag → Option V)
+    (pre post : List (V × Tag)) (ps : List (V × V))
     (h1 : ∀ g ∈ pre, g.1 ≠ .str sCustomTag ∧ g.1 ≠ .str sCustomProp)
     (h2 : ∀ g ∈ post, g.1 ≠ .str sCustomTag ∧ g.1 ≠ .str sCustomProp) :
-    (headerPass ver verText (pre ++ customGroups ps ++ post)).filter (fun g => isCustomName g.1) = customGroups ps := by
-  rw [header_custom_props, custom_props_roundtrip pre post ps h1 h2, if_pos hv]
+    (headerPass ver verText cast (pre ++ customGroupsT ps ++ post)).filter (fun g => isCustomName g.1) = customGroups ps := by
+  have hg : groupVals (pre ++ customGroupsT ps ++ post) = groupVals pre ++ customGroups ps ++ groupVals post := by
+    simp only [groupVals, List.map_append]
+    rw [show (customGroupsT ps).map (fun g => (g.1, g.2.val)) = customGroups ps from groupVals_custom ps]
+  rw [header_custom_props, hg, custom_props_roundtrip (groupVals pre) (groupVals post) ps
+    (by intro g hg'; obtain ⟨q, hq, rfl⟩ := List.mem_map.mp hg'; exact h1 q hq)
+    (by intro g hg'; obtain ⟨q, hq, rfl⟩ := List.mem_map.mp hg'; exact h2 q hq), if_pos hv]
 
 /-- … and the custom property tags inside the written HEADER section of a R2004+ file are exactly those of the input, in order
     (tag level: (9, $CUSTOMPROPERTYTAG), (1, name), (9, $CUSTOMPROPERTY), (1, value)) -/
-theorem file_custom_props (ver : Nat) (hv : 1018 ≤ ver) (verText : V) (pre post ps : List (V × V))
+theorem file_custom_props (ver : Nat) (hv : 1018 ≤ ver) (verText : V) (cast : Nat → Tag → Option V)
+    (pre post : List (V × Tag)) (ps : List (V × V))
     (h1 : ∀ g ∈ pre, g.1 ≠ .str sCustomTag ∧ g.1 ≠ .str sCustomProp)
     (h2 : ∀ g ∈ post, g.1 ≠ .str sCustomTag ∧ g.1 ≠ .str sCustomProp) :
-    headerTagsOf ver ((headerPass ver verText (pre ++ customGroups ps ++ post)).filter (fun g => isCustomName g.1))
+    headerTagsOf ver ((headerPass ver verText cast (pre ++ customGroupsT ps ++ post)).filter (fun g => isCustomName g.1))
       = ps.flatMap (fun p => [⟨9, .str sCustomTag⟩, ⟨1, p.1⟩, ⟨9, .str sCustomProp⟩, ⟨1, p.2⟩]) := by
-  rw [header_custom_props_roundtrip ver hv verText pre post ps h1 h2]
+  rw [header_custom_props_roundtrip ver hv verText cast pre post ps h1 h2]
   induction ps with
   | nil => rfl
   | cons p r ih =>
@@ -484,23 +531,31 @@ theorem file_custom_props (ver : Nat) (hv : 1018 ≤ ver) (verText : V) (pre pos
     rw [ih]
     simp [headerCode, isCustomName]
 
-/-- The header variables: every variable of the file that is in HEADER_VAR_MAP and whose version window contains the target
-    version is written exactly once with its (last) value, $ACADVER with the target version; variables outside HEADER_VAR_MAP
-    (finding F24) or outside their window are not written. -/
-theorem header_vars_written (ver : Nat) (verText : V) (groups : List (V × V)) :
-    ((headerPass ver verText groups).filter (fun g => !isCustomName g.1)).Perm
-      ((dictSet (headerVars groups []) (.str sACADVER) verText).filter (fun p => inWindow ver p.1)) :=
-  (headerExport_parts ver verText (headerVars groups []) (customLoad groups) (headerVars_keys groups [] List.nodup_nil)).2
+/-- The header variables: every variable of the file that is in HEADER_VAR_MAP, whose version window contains the target
+    version and whose value has the required group code or can be converted to it (`castGroup`, fix 16b0d709b) is written
+    exactly once with its (last, converted) value, $ACADVER with the target version; variables outside HEADER_VAR_MAP
+    (finding F24), outside their window or with an inconvertible value are not written. -/
+theorem header_vars_written (ver : Nat) (verText : V) (cast : Nat → Tag → Option V) (groups : List (V × Tag)) :
+    ((headerPass ver verText cast groups).filter (fun g => !isCustomName g.1)).Perm
+      ((dictSet ((headerVars groups []).filterMap (castGroup ver cast)) (.str sACADVER) verText).filter
+        (fun p => inWindow ver p.1)) :=
+  (headerExport_parts ver verText _ (customLoad (groupVals groups))
+    (castVars_keys ver cast _ (headerVars_keys groups [] List.nodup_nil))).2
+
+/-- a value that already has the required group code is never converted or dropped -/
+theorem header_value_kept (ver : Nat) (cast : Nat → Tag → Option V) (name : V) (t : Tag)
+    (h : t.code = headerCode ver name) : castGroup ver cast (name, t) = some (name, t.val) := by
+  simp [castGroup, h]
 
 /-- F24 as a theorem: a variable that is not in HEADER_VAR_MAP is never written -/
-theorem header_unknown_var_dropped (ver : Nat) (verText : V) (groups : List (V × V)) (name : V)
-    (hn : varDef name = none) (hc : isCustomName name = false) :
-    name ∉ (headerPass ver verText groups).map (·.1) := by
+theorem header_unknown_var_dropped (ver : Nat) (verText : V) (cast : Nat → Tag → Option V) (groups : List (V × Tag))
+    (name : V) (hn : varDef name = none) (hc : isCustomName name = false) :
+    name ∉ (headerPass ver verText cast groups).map (·.1) := by
   intro hm
   obtain ⟨g, hg, rfl⟩ := List.mem_map.mp hm
-  have hf : g ∈ (headerPass ver verText groups).filter (fun g => !isCustomName g.1) := by
+  have hf : g ∈ (headerPass ver verText cast groups).filter (fun g => !isCustomName g.1) := by
     simp [List.mem_filter, hg, hc]
-  have := ((header_vars_written ver verText groups).mem_iff.mp hf)
+  have := ((header_vars_written ver verText cast groups).mem_iff.mp hf)
   simp only [List.mem_filter, inWindow, hn] at this
   exact absurd this.2 (by simp)
 
@@ -578,22 +633,23 @@ theorem table_head_roundtrip (alive : V → Bool) (nm cnt : V) (r : List Tag)
   tableHead_ok alive nm cnt r h
 
 /-- DICTIONARY entries (the map from names to foreign objects: extension dictionary -> XRECORD, named object dictionaries):
-    entries with pairwise different non-empty names, non-empty handles and one handle group code (350 soft / 360 hard owner)
+    entries with pairwise different names (since fix ea8106c8c also an empty name or an empty handle) and one handle group code
+    (350 soft / 360 hard owner)
     are read by `Dictionary.load_dict` and written back by `export_dict` tag for tag and in order, wherever the 280 / 281
     attributes stand in front of them.  (A dictionary that mixes 350 and 360 is written with the LAST code: pinned below.) -/
 theorem dictionary_entries_kept (c : Nat) (hc : c = 350 ∨ c = 360) (es : List (V × V)) (pre : List Tag)
-    (hpre : ∀ t ∈ pre, t.code = 280 ∨ t.code = 281) (hk : (es.map (·.1)).Nodup)
-    (ht : ∀ p ∈ es, truthy p.1 = true ∧ truthy p.2 = true) :
+    (hpre : ∀ t ∈ pre, t.code = 280 ∨ t.code = 281) (hk : (es.map (·.1)).Nodup) :
     dictExport (dictLoad (pre ++ entryTags c es)) = entryTags c es :=
-  dictionary_entries_ok c hc es pre hpre hk ht
+  dictionary_entries_ok c hc es pre hpre hk
 
 open EzdxfVerif.Storage.Ex in
 /-- outside these hypotheses (replayed on the real code, stream X11): mixed handle codes are unified to the last one; a repeated
-    name keeps the later handle at the first position; an entry with an empty handle is not stored -/
+    name keeps the later handle at the first position; a handle in front of its name is paired with it, of two names in a row
+    the later one gets the next handle -/
 theorem dictionary_counterexamples :
     dictExport (dictLoad [T 3 "A", T 350 "1", T 3 "B", T 360 "2"]) = [T 3 "A", T 360 "1", T 3 "B", T 360 "2"]
     ∧ dictExport (dictLoad [T 3 "A", T 350 "1", T 3 "B", T 350 "2", T 3 "A", T 350 "3"]) = [T 3 "A", T 350 "3", T 3 "B", T 350 "2"]
-    ∧ dictExport (dictLoad [T 3 "A", T 350 "", T 3 "B", T 350 "2"]) = [T 3 "B", T 350 "2"] := by
+    ∧ dictExport (dictLoad [T 350 "1", T 3 "A", T 3 "B", T 3 "C", T 350 "2"]) = [T 3 "A", T 350 "1", T 3 "C", T 350 "2"] := by
   decide +kernel
 
 /-- XRECORD end to end (the payload behind an extension dictionary): a well-formed XRECORD whose first subclass is
@@ -654,8 +710,8 @@ open EzdxfVerif.StorageDoc.Ex
 #guard (loadSaveFile exCfg exBc [S "FB", S "*Model_Space", S "X"] (fun n => [T 0 "ORPHAN", ⟨2, n⟩]) 1024 (S "AC1024") [] (fun _ => []) [] exFile).toOption == some exFileOut
 #guard exStdClass.record true == [T 0 "CLASS", T 1 "ACME", T 2 "AcmeThing", T 3 "AcmeApp", T 90 "1153", T 91 "3", T 280 "0", T 281 "1"]
 #guard classesPass true [exStdClass.record true, exStdClass.record true] [] == some (exStdClass.record true)
-#guard headerPass 1024 (S "AC1024") exHeader == exHeaderOut2010
-#guard headerPass 1015 (S "AC1015") exHeader == exHeaderOut2000
+#guard headerPass 1024 (S "AC1024") exCast exHeader == exHeaderOut2010
+#guard headerPass 1015 (S "AC1015") exCast exHeader == exHeaderOut2000
 #guard (match load exXRecord with
   | .ok e => e.subs == [[T 100 "AcDbXrecord", T 280 "1", T 1 "before"], [T 100 "AnyString", T 1 "after", T 310 "CAFE"]] && e.embedded == []
       && (exportXRecord allAlive e).toOption == some exXRecord
